@@ -61,7 +61,7 @@ def _recover(draw):
         auto = math.exp(draw(st.floats(0.0, math.log(min(5000.0, cap)))))
     blank = auto > 0 and draw(st.booleans()) and len(lad) < 10
     # callers hand over float arrays, integer arrays (manufacturer values are whole numbers) or lists
-    container = draw(st.sampled_from(['float_array', 'float_array', 'int_array', 'list', 'f32_array']))
+    container = draw(st.sampled_from(['float_array', 'float_array', 'int_array', 'list', 'f32_array', 'readonly']))
     if container == 'int_array':
         lad = [float(round(v)) for v in lad]
     return dict(arm='recover', m=m, b=b, auto=auto, mef=([0.0] if blank else []) + lad, container=container)
@@ -128,6 +128,12 @@ def _structure(out, rfi, obs):
     obs.claim('model_identity', bool(np.allclose(bm, sc - auto_fit, rtol=1e-9, atol=1e-9 * max(1.0, auto_fit))),
               'beads_model(x) != std_crv(x) - autofluorescence')
     obs.claim('names', list(out[4]) == ['m', 'b', 'fl_mef_auto'] and isinstance(out[3], str), 'parameter names')
+    # an array that starts with an exact zero is converted element by element like any other
+    lead0 = np.concatenate([[0.0], grid])
+    v0 = call(std_crv, lead0)
+    obs.claim('params_consistent', not raised(v0) and np.asarray(v0).shape == lead0.shape and float(np.asarray(v0)[0]) == 0.0
+              and bool(np.allclose(np.asarray(v0, dtype=float)[1:], sc, rtol=1e-12)),
+              lambda: 'std_crv on an array starting with 0: %r, element by element %r' % (np.asarray(v0)[:4], sc[:3].tolist()))
     # channel numbers are integers: the curve takes them as it takes floats (and leaves the caller's array alone)
     for dt in (np.int64, np.uint16):
         gi = np.array([1, 2, 10, 255, 1023], dtype=dt)
@@ -165,6 +171,9 @@ def check(case, obs):
     else:
         mef_arg = np.array(mef)
     rfi_arg = list(rfi) if container == 'list' else np.array(rfi, dtype=np.float32 if container == 'f32_array' else np.float64)
+    if container == 'readonly':
+        rfi_arg.setflags(write=False)       # e.g. what pandas hands out for a column; the fit only reads its inputs
+        mef_arg.setflags(write=False)
     out = call(FlowCal.mef.fit_beads_autofluorescence, rfi_arg, mef_arg)       # (statistics of a float32 sample are float32)
     if not obs.claim('fits', not raised(out), lambda: 'fit raised %r' % (out,)):
         return
